@@ -84,7 +84,7 @@ WORST = dict(
 RUN = dict(
     params=dict(self='obj:AIM', data=M.dataset_param(), W='obj:list'), attr_types=ATTR,
     requires=['ghost("ledger_rho") == 0', 'self.rho >= 0', 'self.rounds >= 0'],
-    sqrt='abort', ieee_zero_division_assumed_away=('2*0.9*remaining',),
+    sqrt='abort', ieee_zero_division_assumed_away=('scaled:remaining',),
     local_types={'t': 'int', 'terminate': 'bool', 'sigma': 'npreal', 'epsilon': 'npreal', 'rho_used': 'npreal', 'cl': 'obj:',
                  'x': 'obj:', 'y': 'obj:', 'n': 'obj:', 'z': 'obj:', 'w': 'obj:', 'Q': 'obj:', 'I': 'obj:', 'remaining': 'npreal',
                  'size_limit': 'obj:', 'small_candidates': 'obj:dict', 'model': 'obj:model'},
